@@ -48,6 +48,17 @@ def make_case(args):
         return None
     dtype = rng.choice(["float64", "float64", "float32"])
     mode = rng.choice(["scale", "rotate", "scaleby"])
+    if mode == "rotate" and rng.random() < 0.3:
+        # equal-energy crossing seas: the frequency-summed spectrum has two exactly tied maxima
+        E = np.zeros((nf, nd))
+        j1, j2 = rng.sample(range(nd), 2)
+        i1, i2 = rng.randrange(1, nf - 1), rng.randrange(1, nf - 1)
+        E[i1, j1] += 4.0
+        E[i2, j2] += 4.0
+        E[max(i1 - 1, 0), j1] += 1.0
+        E[max(i2 - 1, 0), j2] += 1.0
+        E += 0.015625
+        kind = "tied_dp"
     if mode == "scaleby" and rng.random() < 0.35:
         # valid spectrum without an interior peak: tp/dpm are NaN, so a tp/dpm range is never met
         E = np.array([[(nf - i) * (1 + (j % 3)) for j in range(nd)] for i in range(nf)], dtype=float)
@@ -195,9 +206,6 @@ def run_check():
                             ck.fail("rotate", f"{nm}: {b[nm]} -> {o[nm]}", case)
                         continue
                     if nm in ("dm", "dpm") and weak_vector(r, nm):
-                        ck.ambiguous += 1
-                        continue
-                    if nm == "dp" and dp_tie(r):
                         ck.ambiguous += 1
                         continue
                     if not ang_close(o[nm], (b[nm] + a) % 360.0, tol=2e-3 if (nm in ("dpm", "dp") or r["dtype"] == "float32") else 1e-6):
